@@ -523,7 +523,7 @@ struct Exec
 {
    bool ret = false, threw = false, crashed = false;
    int sig = 0;
-   std::string extype;
+   std::string extype, how;
 };
 static const char* sigName(int s)
 {
@@ -537,7 +537,8 @@ static std::string excName(const std::exception& e)
    free(d);
    return n;
 }
-// runs f (returning bool) first in a forked child; plain fatal signals there => crashed (f is NOT run in this process)
+// runs f (returning bool) first in a forked child; a child that dies (fatal signal, sanitizer report, abort) => crashed and f is
+// NOT run in this process; the child's stderr (sanitizer report) is captured for the violation detail
 static Exec runProbed(const std::function<bool()>& f, bool risky)
 {
    Exec e;
@@ -546,9 +547,17 @@ static Exec runProbed(const std::function<bool()>& f, bool risky)
    {
       fflush(stdout);
       fflush(stderr);
+      int pfd[2] = {-1, -1};
+      if(pipe(pfd) != 0) pfd[0] = pfd[1] = -1;
       pid_t pid = fork();
       if(pid == 0)
       {
+         if(pfd[1] >= 0)
+         {
+            dup2(pfd[1], 2);
+            close(pfd[0]);
+            close(pfd[1]);
+         }
          signal(SIGFPE, SIG_DFL);
          signal(SIGSEGV, SIG_DFL);
          signal(SIGBUS, SIG_DFL);
@@ -566,23 +575,37 @@ static Exec runProbed(const std::function<bool()>& f, bool risky)
       }
       else if(pid > 0)
       {
+         std::string err;
+         if(pfd[1] >= 0) close(pfd[1]);
+         if(pfd[0] >= 0)
+         {
+            char buf[4096];
+            ssize_t n;
+            while((n = read(pfd[0], buf, sizeof buf)) > 0 || (n < 0 && errno == EINTR)) if(n > 0 && err.size() < 6000) err.append(buf, (size_t)n);
+            close(pfd[0]);
+         }
          int st = 0;
          while(waitpid(pid, &st, 0) < 0 && errno == EINTR) {}
          S.count("probe.forks");
-         if(WIFSIGNALED(st))
+         bool normal = WIFEXITED(st) && (WEXITSTATUS(st) == 10 || WEXITSTATUS(st) == 11 || WEXITSTATUS(st) == 12);
+         if(!normal)
          {
-            int sg = WTERMSIG(st);
-            if(sg == SIGFPE || sg == SIGSEGV || sg == SIGBUS || sg == SIGILL)
-            {
-               e.crashed = true;
-               e.sig = sg;
-               S.count("probe.crashes");
-               return e;
-            }
-            // SIGABRT etc.: a sanitizer report or std::terminate -> run in process so that the driver keys the report
+            e.crashed = true;
+            e.sig = WIFSIGNALED(st) ? WTERMSIG(st) : 0;
+            e.how = WIFSIGNALED(st) ? std::string("signal ") + sigName(e.sig) : "exit code " + std::to_string(WIFEXITED(st) ? WEXITSTATUS(st) : -1);
+            size_t q = err.find("runtime error:");
+            if(q == std::string::npos) q = err.find("ERROR:");
+            if(q != std::string::npos) e.how += " | " + err.substr(q, 700);
+            S.count("probe.crashes");
+            return e;
          }
       }
-      else S.count("probe.fork_failed");
+      else
+      {
+         if(pfd[0] >= 0) close(pfd[0]);
+         if(pfd[1] >= 0) close(pfd[1]);
+         S.count("probe.fork_failed");
+      }
    }
    try
    {
@@ -881,7 +904,7 @@ struct Ctx
       std::string base = "C15:" + op + ":" + pname + ":" + cls;
       if(e.crashed)
       {
-         viol(base + ":crash-" + sigName(e.sig), std::string("the call dies with ") + sigName(e.sig) + " (observed in a forked probe; the call was not repeated in the worker)", input);
+         viol(base + ":crash", "the call dies: " + e.how + " (observed in a forked probe; the call was not repeated in the worker)", input);
          sink().count("viol.crash");
          heal();
          return;
@@ -972,7 +995,7 @@ struct Ctx
          if(e.crashed || e.threw || e.ret || !d.empty())
          {
             viol("C15:parseSettingsString:-:" + l.cls + ":reads-past-end", "parseSettingsString(\"" + l.text + "\") must fail without effect; observed: " +
-                 (e.crashed ? std::string("crash ") + sigName(e.sig) : e.threw ? "exception " + e.extype : std::string(e.ret ? "returned true" : "returned false") + (d.empty() ? "" : "; " + d[0].detail)), l.text);
+                 (e.crashed ? "crash: " + e.how : e.threw ? "exception " + e.extype : std::string(e.ret ? "returned true" : "returned false") + (d.empty() ? "" : "; " + d[0].detail)), l.text);
             heal();
          }
          return;
@@ -1028,7 +1051,7 @@ struct Ctx
       bool truncated = special && special->kind == 2 && (special->cls == "bare-type" || special->cls == "name-only");
       if(e.crashed)
       {
-         viol(base + ":crash-" + sigName(e.sig), std::string("loadSettingsFile dies with ") + sigName(e.sig) + " (forked probe)", content);
+         viol(base + ":crash", "loadSettingsFile dies: " + e.how + " (forked probe)", content);
          S.count("viol.crash");
          heal();      // the model holds the predicted effect of all lines: rebuild the object from it
          return;
@@ -1191,7 +1214,7 @@ struct Ctx
       unlink(path.c_str());
       if(e2.crashed)
       {
-         viol("C15:reload:-:" + oc + ":crash-" + sigName(e2.sig), "loading the file written by saveSettingsFile dies");
+         viol("C15:reload:-:" + oc + ":crash", "loading the file written by saveSettingsFile dies: " + e2.how);
          return;
       }
       if(e2.threw)
